@@ -10,6 +10,10 @@ Only rewrites whose result is the same program are made, each under a stated con
   E)``), assignments, ``raise``, ``for ... in`` and ``with`` headers.  An ``elif`` is the
   ``if`` statement alone in an ``else`` block, so the assignment lands in that block.
 
+* ``map(operator.invert, xs)`` (also ``neg``, ``not_``; the function named through this
+  module's imports of :py:mod:`operator`, and ``map`` not re-bound in the module)  ->
+  ``(~x for x in xs)``: both are lazy iterators applying the operator to each element.
+
 Assignment expressions elsewhere (second operand of ``and``/``or``, comprehensions,
 ``while`` tests, ``assert``) stay as they are and are interpreted by the path engine.
 """
@@ -166,9 +170,77 @@ def _rewrite_body(body):
     return result
 
 
+_UNARY = {'invert': ast.Invert, '__invert__': ast.Invert, 'inv': ast.Invert,
+          'neg': ast.USub, '__neg__': ast.USub, 'not_': ast.Not, '__not__': ast.Not}
+
+
+def _operator_imports(tree):
+    """(names bound to unary functions of `operator`, names bound to the module itself,
+    whether `map` is re-bound at module level)"""
+    functions, modules, shadowed = {}, set(), False
+    for node in ast.walk(tree):
+        if isinstance(node, ast.ImportFrom) and node.module == 'operator' and not node.level:
+            for alias in node.names:
+                if alias.name in _UNARY:
+                    functions[alias.asname or alias.name] = _UNARY[alias.name]
+        elif isinstance(node, ast.Import):
+            for alias in node.names:
+                if alias.name == 'operator':
+                    modules.add(alias.asname or 'operator')
+        elif isinstance(node, (ast.FunctionDef, ast.AsyncFunctionDef, ast.ClassDef)) and \
+                node.name == 'map':
+            shadowed = True
+        elif isinstance(node, ast.Name) and node.id == 'map' and \
+                isinstance(node.ctx, ast.Store):
+            shadowed = True
+        elif isinstance(node, ast.arg) and node.arg == 'map':
+            shadowed = True
+    return functions, modules, shadowed
+
+
+class _MapToGenerator(ast.NodeTransformer):
+    def __init__(self, functions, modules):
+        self.functions, self.modules, self.count = functions, modules, 0
+
+    def _unary(self, func):
+        if isinstance(func, ast.Name):
+            return self.functions.get(func.id)
+        if isinstance(func, ast.Attribute) and isinstance(func.value, ast.Name) and \
+                func.value.id in self.modules:
+            return _UNARY.get(func.attr)
+        return None
+
+    def visit_Call(self, node):
+        node = self.generic_visit(node)
+        if isinstance(node.func, ast.Name) and node.func.id == 'map' and \
+                len(node.args) == 2 and not node.keywords and \
+                not isinstance(node.args[1], ast.Starred):
+            op = self._unary(node.args[0])
+            if op is not None:
+                used = {n.id for n in ast.walk(node.args[1]) if isinstance(n, ast.Name)}
+                var = 'x_'
+                while var in used:
+                    var += '_'
+                elt = ast.UnaryOp(op=op(), operand=ast.Name(id=var, ctx=ast.Load()))
+                comp = ast.comprehension(target=ast.Name(id=var, ctx=ast.Store()),
+                                         iter=node.args[1], ifs=[], is_async=0)
+                new = ast.GeneratorExp(elt=elt, generators=[comp])
+                for fresh in ast.walk(new):
+                    if isinstance(fresh, ast.expr) and not hasattr(fresh, 'lineno'):
+                        ast.copy_location(fresh, node)
+                self.count += 1
+                return new
+        return node
+
+
 def desugar(tree):
     """normalise ``tree`` in place; returns the number of rewrites"""
     count = 0
+    functions, modules, shadowed = _operator_imports(tree)
+    if (functions or modules) and not shadowed:
+        mapper = _MapToGenerator(functions, modules)
+        mapper.visit(tree)
+        count += mapper.count
     for node in list(ast.walk(tree)):
         if isinstance(node, ast.ClassDef):
             continue
